@@ -21,6 +21,7 @@ Definition aw_headers (h : awheader) : list aobj_header :=
            (PyFixedPrefix psize n (concat (map (fun it => ale_bytes (N.to_nat psize) (fst it) ++ snd it) items)))]
   | WCountOfOne g v obj => [amk g v (HCount8 1) (PyFixedCount 1 obj)]
   | WClearRestart => [amk 80 1 (HRange8 7 7) (PyBits 7 1 [0])]
+  | WAttr _ _ _ => []      (* device attributes: framing only, outside the proved round trip (see aw_ok) *)
   end.
 
 (* side conditions under which the builders produce a decodable request: the variation may be used with
@@ -46,6 +47,7 @@ Definition aw_ok (o : aopts) (fc : N) (h : awheader) : Prop :=
       g < 256 /\ v < 256 /\ alookup g v = true /\ aqkind qt_count g v = Some DFixed
       /\ exists fi, afixed g v = Some fi /\ abytes_ok obj /\ N.of_nat (length obj) = fi_size fi
   | WClearRestart => (fc =? fc_read) = false
+  | WAttr _ _ _ => False   (* not covered: the inner codec of g0 is modelled for the differential run only *)
   end.
 
 (* T::write of T::read of a well-sized object is the object *)
@@ -89,7 +91,8 @@ Lemma aw_header_correct o fc h : aw_ok o fc h ->
   /\ Forall (awf_header o fc) (aw_headers h)
   /\ abytes_ok (aw_bytes h).
 Proof.
-  destruct h as [g v|g v a b|g v a b|g v c|g v c|c1 c2 c3 c0|g v psize items|g v obj|]; cbn [aw_ok aw_headers aw_bytes].
+  destruct h as [g v|g v a b|g v a b|g v c|g v c|c1 c2 c3 c0|g v psize items|g v obj| |st vr vl]; cbn [aw_ok aw_headers aw_bytes];
+    [| | | | | | | | |intros []].
   - intros [Hg [Hv [Hl Hk]]]. split; [reflexivity|]. split; [|abytes; reflexivity].
     constructor; [|constructor]. unfold awf_header, amk. cbn [oh_g oh_v oh_details oh_payload]. auto.
   - intros [Hg [Hv [Hl [Hab [Hb Hr]]]]]. split; [reflexivity|].
